@@ -221,6 +221,8 @@ class Canon:
                     return self._atom(("num", subj, _OPNAME[t], thr), f"{subj_txt} {_OPNAME[t]} {thr:g}")
                 # constant comparison
                 return ("const", _eval_regions(_region_set(t, 0.0), const))
+        if t is ast.Eq and isinstance(left, ast.Tuple) and isinstance(right, ast.Tuple) and len(left.elts) == len(right.elts):
+            return ("and", [self._cmp(a, ast.Eq(), b) for a, b in zip(left.elts, right.elts)])
         if t is ast.Eq:
             # s[0] == 'c' / s[-1] == 'c'
             c = _strconst(right)
@@ -328,23 +330,123 @@ def valuations(atoms: Set[tuple], constraints: Optional[Callable[[Dict[tuple, bo
                 yield v
 
 
-def equivalent(f: Formula, g: Formula, constraints=None) -> Tuple[bool, Optional[Dict[tuple, bool]], int]:
-    atoms = atoms_of(f) | atoms_of(g)
-    if len([a for a in atoms if a[0] != "num"]) > 14:
-        raise AnalysisError("too many atoms for exhaustive enumeration")
-    n = 0
-    for v in valuations(atoms, constraints):
-        n += 1
-        if evaluate(f, v.__getitem__) != evaluate(g, v.__getitem__):
-            return False, v, n
-    return True, None, n
+def _region_points(thresholds):
+    thr = sorted(set(thresholds))
+    pts = []
+    for i, c in enumerate(thr):
+        pts.append(c - 1.0 if i == 0 else (thr[i - 1] + c) / 2.0)
+        pts.append(c)
+    pts.append(thr[-1] + 1.0)
+    return pts
+
+
+def eval3(f: Formula, bools: Dict[tuple, bool], nums: Dict[str, float]):
+    """Three-valued evaluation under a partial assignment (None = undetermined)."""
+    k = f[0]
+    if k == "const":
+        return f[1]
+    if k == "atom":
+        a = f[1]
+        if a[0] == "num":
+            p = nums.get(a[1])
+            return None if p is None else _OPS[a[2]](p, a[3])
+        return bools.get(a)
+    if k == "not":
+        v = eval3(f[1], bools, nums)
+        return None if v is None else (not v)
+    if k == "and":
+        und = False
+        for g in f[1]:
+            v = eval3(g, bools, nums)
+            if v is False:
+                return False
+            if v is None:
+                und = True
+        return None if und else True
+    if k == "or":
+        und = False
+        for g in f[1]:
+            v = eval3(g, bools, nums)
+            if v is True:
+                return True
+            if v is None:
+                und = True
+        return None if und else False
+    raise AnalysisError(f"bad formula node {k}")
+
+
+def _first_undetermined(f: Formula, bools, nums):
+    k = f[0]
+    if k == "atom":
+        a = f[1]
+        if a[0] == "num":
+            return ("num", a[1]) if a[1] not in nums else None
+        return ("bool", a) if a not in bools else None
+    if k == "not":
+        return _first_undetermined(f[1], bools, nums)
+    if k in ("and", "or"):
+        for g in f[1]:
+            if eval3(g, bools, nums) is None:
+                r = _first_undetermined(g, bools, nums)
+                if r is not None:
+                    return r
+    return None
+
+
+def find_model(f: Formula, budget: int = 2_000_000):
+    """A (partial) assignment making f true, or None: complete backtracking search over boolean atoms
+    and, per numeric subject, the order regions induced by all its thresholds."""
+    thresholds: Dict[str, Set[float]] = {}
+    for a in atoms_of(f):
+        if a[0] == "num":
+            thresholds.setdefault(a[1], set()).add(a[3])
+    points = {s: _region_points(t) for s, t in thresholds.items()}
+    steps = [0]
+
+    def rec(bools, nums):
+        steps[0] += 1
+        if steps[0] > budget:
+            raise AnalysisError("formula search budget exceeded")
+        v = eval3(f, bools, nums)
+        if v is True:
+            return dict(bools), dict(nums)
+        if v is False:
+            return None
+        var = _first_undetermined(f, bools, nums)
+        if var is None:
+            return None
+        if var[0] == "bool":
+            for b in (True, False):
+                bools[var[1]] = b
+                r = rec(bools, nums)
+                if r is not None:
+                    return r
+            del bools[var[1]]
+            return None
+        for p in points[var[1]]:
+            nums[var[1]] = p
+            r = rec(bools, nums)
+            if r is not None:
+                return r
+        del nums[var[1]]
+        return None
+
+    return rec({}, {})
 
 
 def satisfiable(f: Formula, constraints=None) -> bool:
-    for v in valuations(atoms_of(f), constraints):
-        if evaluate(f, v.__getitem__):
-            return True
-    return False
+    return find_model(f) is not None
+
+
+def implies(f: Formula, g: Formula):
+    """f => g ?  Returns (ok, countermodel)."""
+    m = find_model(("and", [f, F_not(g)]))
+    return m is None, m
+
+
+def equivalent(f: Formula, g: Formula, constraints=None) -> Tuple[bool, Optional[dict], int]:
+    m = find_model(("or", [("and", [f, F_not(g)]), ("and", [g, F_not(f)])]))
+    return m is None, m, 0
 
 
 def show(f: Formula, canon: Optional[Canon] = None) -> str:
@@ -365,14 +467,33 @@ def parse_expr(text: str) -> ast.AST:
     return ast.parse(text, mode="eval").body
 
 
+def rebuild(e, fn):
+    """Structural copy of an expression tree (no deepcopy: terms may carry parent links);
+    fn(node) may return a replacement for a node."""
+    import copy as _copy
+
+    r = fn(e)
+    if r is not None:
+        return r
+    if not isinstance(e, ast.AST):
+        return e
+    new = e.__class__()
+    for field, val in ast.iter_fields(e):
+        if isinstance(val, ast.AST):
+            setattr(new, field, rebuild(val, fn))
+        elif isinstance(val, list):
+            setattr(new, field, [rebuild(v, fn) if isinstance(v, ast.AST) else v for v in val])
+        else:
+            setattr(new, field, val)
+    return new
+
+
 def substitute(e: ast.AST, mapping: Dict[str, ast.AST]) -> ast.AST:
     """Replace Name placeholders by terms."""
-    import copy
 
-    class T(ast.NodeTransformer):
-        def visit_Name(self, node):
-            if node.id in mapping:
-                return copy.deepcopy(mapping[node.id])
-            return node
+    def fn(node):
+        if isinstance(node, ast.Name) and node.id in mapping:
+            return mapping[node.id]
+        return None
 
-    return T().visit(copy.deepcopy(e))
+    return rebuild(e, fn)
